@@ -64,6 +64,7 @@ pub struct Flags {
     pub starve_rounds: u64,
     pub ctor_called: bool,
     pub continuation_polls: u32,
+    pub scripted_panics: u32,
 }
 
 pub struct HistResult {
@@ -132,6 +133,8 @@ pub struct Hist {
     pub cut: Option<usize>,
     /// twin run for C15: pushes the model predicts to be refused are not made
     pub suppress_refused: bool,
+    /// children may panic in poll / in their destructor (C07 profile, join combinators)
+    pub allow_panics: bool,
 }
 
 pub fn msg_of(p: Box<dyn std::any::Any + Send>) -> String {
@@ -194,6 +197,7 @@ impl Hist {
             merge_switches: 0,
             cut: None,
             suppress_refused: false,
+            allow_panics: false,
         }
     }
 
@@ -270,10 +274,17 @@ impl Hist {
         }
         k.hold = *r.pick(&[1u8, 1, 1, 2, 3, 5]);
         k.wake_on_ready = r.chance(1, 8);
+        if self.allow_panics && r.chance(1, 10) {
+            if r.chance(1, 2) {
+                k.panic_in_poll = r.range(1, 2) as u32;
+            } else {
+                k.panic_in_drop = true;
+            }
+        }
         if self.kind.is_try() {
             k.fail = r.chance(1, 5);
         }
-        let nest = matches!(self.kind, Kind::Fub | Kind::Fu | Kind::Fob | Kind::Fo | Kind::JoinAll) && r.chance(1, 12);
+        let nest = matches!(self.kind, Kind::Fub | Kind::Fu | Kind::Fob | Kind::Fo | Kind::JoinAll) && !self.w.plain_join.get() && r.chance(1, 12);
         drop(ks);
         if nest {
             // a nested child: join_all over 1..4 grandchildren
@@ -559,6 +570,13 @@ impl Hist {
             Err(p) => {
                 let m = msg_of(p);
                 w.event(ev::POLL_END, 9, 0);
+                if w.scripted_panic.replace(false) {
+                    // a child panicked on purpose and the caller (we) caught the unwind: the
+                    // combinator is still a live object and safe code may keep using it
+                    self.flags.scripted_panics += 1;
+                    self.last = Last::Pending;
+                    return Last::Pending;
+                }
                 if self.join_ready_seen {
                     // polling a future again after completion may panic; that is allowed
                     self.aborted = Some(format!("poll after completion panicked: {m}"));
@@ -591,7 +609,7 @@ impl Hist {
             let fin = w.finished_in_call.borrow().clone();
             let ks = w.kids.borrow();
             for id in fin {
-                if ks[id as usize].drops == 0 {
+                if ks[id as usize].drops == 0 && !ks[id as usize].plain {
                     w.violation("C05", "not_released_promptly", format!("kid {id} finished during this call but is not dropped when it returns"));
                 }
             }
@@ -1531,7 +1549,7 @@ impl Hist {
         {
             let ks = w.kids.borrow();
             for (i, k) in ks.iter().enumerate() {
-                if k.drops != 1 {
+                if k.drops != 1 && !k.plain {
                     w.violation("C06", "child_drop_count", format!("kid {i} dropped {} times by the end of the history ({})", k.drops, self.desc));
                     break;
                 }
@@ -1664,7 +1682,7 @@ pub fn pick_start(r: &mut Rng) -> Option<usize> {
 fn up_script(r: &mut Rng, is_try: bool, small: bool) -> Vec<UpStep> {
     if !small && r.chance(1, 10) {
         // a long burst of ready items (more than the per-poll budget of the inner set)
-        let n = r.range(62, 300);
+        let n = r.range(62, 420);
         let mut v = vec![UpStep::Item; n];
         if r.chance(1, 2) {
             v.insert(r.below(n), UpStep::Gap);
@@ -1727,6 +1745,7 @@ fn run_history_once(p: &Params, hist_index: u64) -> HistResult {
     let kinds = kinds_for(p.prop);
     let kind = p.kind.unwrap_or_else(|| *h.rng.pick(kinds));
     let small = p.small;
+    h.allow_panics = p.prop == 7 && kind.is_join() && h.rng.chance(1, 3);
     // ---- construct
     let min_cap = if kind.is_adapter() && kind != Kind::ForEach { 1 } else { 0 };
     let mut cap = pick_cap(&mut h.rng, small, min_cap);
@@ -1759,11 +1778,19 @@ fn run_history_once(p: &Params, hist_index: u64) -> HistResult {
     };
     if kind.is_adapter() {
         let script = up_script(&mut h.rng, kind.is_try(), small);
+        if script.len() > 60 && h.rng.chance(1, 2) {
+            // a long burst deserves a large limit now and then (beyond 128 and 256)
+            cap = *h.rng.pick(&[1usize, 2, 8, 33, 64, 129, 130, 200, 257]);
+        }
         h.flags.up_gaps = script.iter().filter(|s| **s == UpStep::Gap).count() as u32;
         let hint_mode = h.rng.below(5) as u8;
-        let ready = if script.len() > 60 { *h.rng.pick(&[100u8, 100, 50]) } else { *h.rng.pick(&[0u8, 20, 50, 100]) };
+        let ready = if script.len() > 60 { *h.rng.pick(&[100u8, 100, 50, 0]) } else { *h.rng.pick(&[0u8, 20, 50, 100]) };
         let fail = if kind.is_try() { *h.rng.pick(&[0u8, 10, 30]) } else { 0 };
         w.install_upstream(script, hint_mode, ready, fail, 15);
+    }
+    if kind == Kind::JoinAll && !h.allow_panics && h.rng.chance(1, 4) {
+        // inputs without drop glue (plain data): the combinator must still drop their outputs
+        w.plain_join.set(true);
     }
     let ok = h.construct(kind, ctor, cap, n_init, start);
     let max_ops = p.max_ops.max(5);
